@@ -83,6 +83,38 @@ def overwrite_factory(ns):
     return f
 
 
+def envelope_factory(ns):
+    """an envelope whose signature map has entries under FREE key strings (any spelling) is written and loaded"""
+    def f(eng):
+        import conda_content_trust.common as C
+
+        def harness(eng):
+            t = T(eng, ns=ns)
+            k1, k2 = t.str('k1', 4), t.str('k2', 4)
+            sigs = t.sdict('sigs', [(k1, {'signature': 'ab' * 64}), (k2, t.anyjson('junkv', strL=2))])
+            env = {'signatures': sigs, 'signed': t.payload('p', dict)}
+            it = Interp(eng)
+            fs = FS()
+            eng.path_local['fs'] = fs
+            w = run_call(it, C.write_metadata_to_file, [env, 'e.json'])
+            l = run_call(it, C.load_metadata_from_file, ['e.json'])
+            mk = lambda mm: dict(scenario='envelope', env=to_wire(conc(mm, env)))
+            obs = []
+            if not is_ret(w) or not is_ret(l):
+                obs.append(oblige(eng, 'write / load of an envelope succeeds', True, mk))
+            else:
+                obs.append(oblige(eng, 'loading an envelope gives an equal JSON value back (signature map included, whatever its keys look like)', z3.Not(json_eq(it, l[1], env)), mk))
+                obs.append(oblige(eng, 'the canonical bytes of the loaded envelope are the bytes of the file', z3.Not(bytes_eq(it, canon_of(it, l[1]), fs.files.get('e.json'))), mk))
+            m = path_model(eng)
+            if m is None:
+                return None
+            wv = mk(m)
+            wv['predicted'] = {'kind': 'ret'} if is_ret(w) and is_ret(l) else predicted(w if not is_ret(w) else l)
+            return record(eng, l if is_ret(w) else w, obs, wv, ['roundtrip'])
+        return harness
+    return f
+
+
 def cycle_factory(ns):
     def f(eng):
         import conda_content_trust.common as C
@@ -168,6 +200,19 @@ def concrete(case):
     import conda_content_trust.signing as S
     import conda_content_trust.authentication as A
     probs = []
+    if case['scenario'] == 'envelope':
+        env = from_wire(case['env'])
+        with CC.temp_files({'e.json': None}) as paths:
+            p = paths['e.json']
+            oc = CC.outcome_of(C.write_metadata_to_file, env, p)
+            if oc['kind'] == 'ret':
+                raw = open(p, 'rb').read()
+                back = C.load_metadata_from_file(p)
+                if not _same(back, env):
+                    probs.append(f'loading gives {back!r:.120} for {env!r:.120}')
+                elif C.canonserialize(back) != raw:
+                    probs.append('canonical bytes of the loaded envelope differ from the file')
+        return {'outcome': oc, 'problems': probs}
     if case['scenario'] == 'overwrite':
         v1, v2 = from_wire(case['v1']), from_wire(case['v2'])
         prior = {'missing': None, 'v1': C.canonserialize(v1), 'notjson': b'{not json'}[case['prior']]
@@ -233,6 +278,7 @@ def post(res, tier):
 
 def units(tier):
     return [Unit('overwrite / load / rewrite', overwrite_factory('ow'), expect=('written',), max_witnesses=150),
+            Unit('envelope roundtrip', envelope_factory('en'), expect=('roundtrip',), max_witnesses=60),
             Unit('sign-write-load-sign-write-load', cycle_factory('cy'), expect=('cycle',), max_witnesses=60)]
 
 
